@@ -28,6 +28,9 @@ func VerifHarness_C07() {
 		w.symPods("", g, 1, 1, false, -6*w.cpuPerNode, false)
 	}
 	w.build()
+	if verifShape(4) == 1 {
+		w.priorScan(g)
+	}
 	s := w.snap(g)
 	mark := len(w.J.Calls)
 	_ = w.ctrl.RunOnce()
